@@ -12,6 +12,7 @@ hypotheses spelled out there.  `track_second_open_range_rejected` is proved for 
 end in a lone carriage return (`…_partial`).
 -/
 import KlogV.Lemmas.Refine
+import KlogV.Props.C04b
 import KlogV.Spec.Grammar
 namespace KlogV.C04
 
